@@ -22,6 +22,9 @@ pub enum Mutation {
     /// line `i` (or, when the flag is set, the two lines `i`, `i+1`) repeated `n` more times in place:
     /// long runs of one terminator / header / row / blank line
     RepeatLines(usize, u16, bool),
+    /// the leading position number of every matrix row line (a line starting with a digit) replaced by
+    /// `start + index`, written out in full (values around and beyond the u32 range)
+    RenumberRows(u64),
     RemoveLine(usize),
     SwapLines(usize),
     /// drop the last whitespace-separated token of a line (ragged matrix)
@@ -136,6 +139,24 @@ fn apply(mut b: Vec<u8>, m: &Mutation) -> Vec<u8> {
             ls.insert(i, run);
             ls.concat()
         }
+        Mutation::RenumberRows(start) => {
+            let mut out = Vec::with_capacity(b.len() + 64);
+            let mut idx = 0u64;
+            for l in lines_of(&b) {
+                if l.first().map_or(false, |c| c.is_ascii_digit()) {
+                    let rest: Vec<u8> = l.iter().cloned().skip_while(|c| c.is_ascii_digit()).collect();
+                    // numbers that each fit u32 wrap around inside u32 (4294967295, 0, 1, ...); larger starts are written as they are
+                    let n = if *start <= u32::MAX as u64 { (*start as u32).wrapping_add(idx as u32) as u64 } else { start.wrapping_add(idx) };
+                    out.extend_from_slice(n.to_string().as_bytes());
+                    out.extend_from_slice(&rest);
+                    idx += 1;
+                } else {
+                    idx = 0;
+                    out.extend_from_slice(&l);
+                }
+            }
+            out
+        }
         Mutation::InsertLine(i, text) => {
             let mut ls = lines_of(&b);
             let i = i % (ls.len() + 1);
@@ -212,6 +233,7 @@ pub fn mutation_strategy() -> BoxedStrategy<Mutation> {
         2 => (any::<usize>(), any::<u8>()).prop_map(|(i, v)| Mutation::Insert(i, v)),
         2 => (any::<usize>(), proptest::sample::select(vec![b'\n', b'>', b'[', b']', b' ', b'\t', b'/'])).prop_map(|(i, v)| Mutation::Insert(i, v)),
         2 => any::<usize>().prop_map(Mutation::DuplicateLine),
+        1 => prop_oneof![Just(u32::MAX as u64), Just(u32::MAX as u64 - 1), Just(u32::MAX as u64 - 3), Just(u32::MAX as u64 + 1), Just(i32::MAX as u64), Just(u64::MAX), Just(u64::MAX - 2), 0u64..=3, any::<u64>()].prop_map(Mutation::RenumberRows),
         1 => (any::<usize>(), prop_oneof![4 => 2u16..=60, 1 => 1000u16..=30000], any::<bool>()).prop_map(|(i, n, two)| Mutation::RepeatLines(i, n, two)),
         3 => any::<usize>().prop_map(Mutation::RemoveLine),
         2 => any::<usize>().prop_map(Mutation::SwapLines),
@@ -252,7 +274,7 @@ impl Sub for Structured {
         "structured-mutations"
     }
     fn rule(&self) -> &'static str {
-        "a valid generated file (C14's writers, 1..6 records) or one of the repository's small test files, with 1..3 mutations (prefix, byte substitution / deletion / insertion, line duplication / removal / swap, one or two lines repeated 2..60 or 1000..30000 times, ragged or longer row, header without matrix, an inserted line (any two-letter field code, or a header / terminator / matrix-like line of one of the formats in an odd place), missing final newline, invalid UTF-8, arbitrary bytes, empty), read by the reader of its own format (or, 1 in 5, another format's) under 2 generated chunkings; Reader::new and every next() must return (a panic fails; so does a call that burns 10 CPU seconds without returning) and a consumer stopping at the first Err / None must stop within len+2 calls; sweep = EVERY prefix of the repository's 8 small files and of a generated file per format, under chunk size 1 and a cursor; non-trivial = non-empty input on which the reader does not simply succeed as on the unmutated file"
+        "a valid generated file (C14's writers, 1..6 records) or one of the repository's small test files, with 1..3 mutations (prefix, byte substitution / deletion / insertion, line duplication / removal / swap, one or two lines repeated 2..60 or 1000..30000 times, matrix rows renumbered from values around 2^31 / 2^32 / 2^64, ragged or longer row, header without matrix, an inserted line (any two-letter field code, or a header / terminator / matrix-like line of one of the formats in an odd place), missing final newline, invalid UTF-8, arbitrary bytes, empty), read by the reader of its own format (or, 1 in 5, another format's) under 2 generated chunkings; Reader::new and every next() must return (a panic fails; so does a call that burns 10 CPU seconds without returning) and a consumer stopping at the first Err / None must stop within len+2 calls; sweep = EVERY prefix of the repository's 8 small files and of a generated file per format, under chunk size 1 and a cursor; non-trivial = non-empty input on which the reader does not simply succeed as on the unmutated file"
     }
     fn cases(&self, tier: Tier) -> u64 {
         tier.pick(100_000, 3_000_000)
@@ -326,6 +348,7 @@ impl Sub for Structured {
                 Mutation::Delete(_) => "mut:delete",
                 Mutation::Insert(..) => "mut:insert",
                 Mutation::DuplicateLine(_) => "mut:dup-line",
+                Mutation::RenumberRows(_) => "mut:rows-renumbered(around-2^32)",
                 Mutation::RepeatLines(_, n, _) => {
                     if *n >= 1000 {
                         "mut:line-repeated>=1000x"
